@@ -1,6 +1,7 @@
 package main
 
 import (
+	"os"
 	"fmt"
 	"go/types"
 	"sort"
@@ -460,6 +461,34 @@ func dispatchEntry(p *Prog, ro *Roles) *ssa.Function {
 			}
 		}
 	}
+	ro.dispKeep = ro.keepsWriting
+	if len(cands) == 0 {
+		// the routing step itself is a function of its own (`s.dispatch(ctx, c, interfacename, methodname)`): it
+		// reaches the reply path, but it is part of the dispatch entry, not a reply primitive
+		routes := func(f *ssa.Function) bool {
+			for _, cs := range callsIn(f, false) {
+				if cs.Common.IsInvoke() && cs.Common.Method.Name() == "VarlinkDispatch" {
+					return true
+				}
+			}
+			return false
+		}
+		ro.dispKeep = func(f *ssa.Function) bool { return ro.keepsWriting(f) && !routes(f) }
+		for f := range ro.CG.Reach([]*ssa.Function{ro.Handle}, false) {
+			if fnPkgPath(f) != pkgVarlink || f.Parent() != nil || len(f.Blocks) == 0 {
+				continue
+			}
+			v := p.Inlined(f, ro.dispKeep)
+			if len(decodeSites(v)) == 0 {
+				continue
+			}
+			for _, cs := range callsIn(v, false) {
+				if cs.Common.IsInvoke() && cs.Common.Method.Name() == "VarlinkDispatch" {
+					cands = appendFn(cands, f)
+				}
+			}
+		}
+	}
 	sort.Slice(cands, func(i, j int) bool { return cands[i].Pos() < cands[j].Pos() })
 	for _, f := range cands {
 		inner := true
@@ -482,8 +511,11 @@ func dispatchView(p *Prog, ro *Roles) *ssa.Function {
 	if e == nil {
 		return nil
 	}
-	v := p.Inlined(e, ro.keepsWriting)
+	v := p.Inlined(e, ro.dispKeep)
 	ro.CG.AddView(v)
+	if os.Getenv("VLDEBUG") == "dispview" {
+		v.WriteTo(os.Stderr)
+	}
 	return v
 }
 
